@@ -119,14 +119,14 @@ def atomically (p : Prog Var Val ε α) (s : S) : Out ε α × S :=
   | (o, _) => (o, s)
 
 /-- the transaction log: variables read from the store (with the value first seen) and the
-    writes in program order.  `LogVar::{Read, Write, ReadWrite}` is the per-variable summary of
+    writes, newest first.  `LogVar::{Read, Write, ReadWrite}` is the per-variable summary of
     this pair. -/
 structure Log (Var Val : Type) where
   reads : List (Var × Val) := []
   writes : List (Var × Val) := []
 
 def Log.lastWrite (ℓ : Log Var Val) (v : Var) : Option Val :=
-  (ℓ.writes.reverse.find? (fun p => p.1 = v)).map (·.2)
+  (ℓ.writes.find? (fun p => p.1 = v)).map (·.2)
 
 def Log.firstRead (ℓ : Log Var Val) (v : Var) : Option Val :=
   (ℓ.reads.find? (fun p => p.1 = v)).map (·.2)
@@ -138,14 +138,15 @@ def Log.read (ℓ : Log Var Val) (s : S) (v : Var) : Val × Log Var Val :=
   | none =>
     match ℓ.firstRead v with
     | some x => (x, ℓ)
-    | none => (sget s v, { ℓ with reads := ℓ.reads ++ [(v, sget s v)] })
+    | none => (sget s v, { ℓ with reads := (v, sget s v) :: ℓ.reads })
 
 def Log.write (ℓ : Log Var Val) (v : Var) (x : Val) : Log Var Val :=
-  { ℓ with writes := ℓ.writes ++ [(v, x)] }
+  { ℓ with writes := (v, x) :: ℓ.writes }
 
-/-- publish the writes (what `commit` does once validation passed) -/
+/-- publish the writes, oldest first (what `commit` does once validation passed; the real commit
+    writes each variable once with its last value, which is observationally the same) -/
 def Log.apply (ℓ : Log Var Val) (s : S) : S :=
-  ℓ.writes.foldl (fun s p => sset s p.1 p.2) s
+  ℓ.writes.foldr (fun p s => sset s p.1 p.2) s
 
 /-- log semantics: the store is never written while the closure runs -/
 def execLog : Prog Var Val ε α → S → Log Var Val → Out ε α × Log Var Val
